@@ -7,6 +7,9 @@ package main
 // library driver and what is left on disk is compared.
 
 import (
+	"verif/harness/internal/gitenv"
+	"sync"
+	"bytes"
 	"bufio"
 	"encoding/json"
 	"fmt"
@@ -195,11 +198,12 @@ func init() {
 		c.Set("distinct_nontrivial", len(scripts))
 		customAdapterPhase(c, drv)
 		sshAdapterPhase(c, drv)
+		fileAgentPhase(c)
 		c.Set("rule", "scripts = per-edge output of spec/Download.tla for every finished download: <= MaxReq answers (status 200/206/416/404/500/429 x body exact/suffix/wrong suffix/prefix/extra/bit flip/other object x Content-Range right/wrong/missing/malformed x connection cut) x initial .part in {absent, valid prefix, garbage, size-1, longer} x a file at the final place beforehand {none, same size with other bytes}; sampled round-robin over classes (part x result x status/cut/range pattern)")
 		for i := 0; i < len(scripts); i += len(scripts)/4 + 1 {
 			c.Sample(scripts[i])
 		}
-		c.Assume("basic adapter (HTTP scripts), custom adapter (agent scripts) and pure-SSH adapter (scripted git-lfs-transfer far side, one connection); one process; the object is 4001 bytes so that the size-1 boundary of the resume rule is a cell boundary of the model")
+		c.Assume("basic adapter (HTTP scripts), custom adapter (agent scripts) and pure-SSH adapter (scripted git-lfs-transfer far side, one connection) and the standalone file agent of file:// remotes (real git lfs fetch); one process; the object is 4001 bytes so that the size-1 boundary of the resume rule is a cell boundary of the model")
 	}
 }
 
@@ -429,4 +433,162 @@ func sshAdapterPhase(c *core.Ctx, drv string) {
 	c.AddInt("distinct_nontrivial", int64(len(scripts)))
 	c.AddInt("traces_validated_against_impl", int64(len(scripts)))
 	c.Set("ssh_adapter_rule", "far-side scripts = per-edge output of spec/SshDownload.tla: <= MaxReq answers to get-object (status 200/206/404/500 x size argument right/other/missing/twice/malformed/negative x framing ok/flush instead of delimiter/no status line/far side dies mid-body x body exact/prefix/extra/bit flip/other/empty) x a file at the final place beforehand {none, same size with other bytes}; all of them replayed through core.sshCommand")
+}
+
+// fileAgentPhase: spec/FileDownload.tla enumerates what may sit in a file:// remote's store under the
+// object's name x what sits at the final place beforehand; its variant without the check-before-move
+// must violate FailLeavesNoFinal; every case is run with the real `git lfs fetch` (custom adapter +
+// `git-lfs standalone-file`, both git-lfs code).
+type fileCase struct {
+	Remote     string `json:"remote"`
+	Final0     string `json:"final0"`
+	Result     string `json:"result"`
+	FinalValid bool   `json:"finalValid"`
+}
+
+func fileAgentPhase(c *core.Ctx) {
+	lfs := c.BuildLFS()
+	gcfg := writeCfgVariant(c, "FileDownload_q.cfg", "FileDownload_gen.cfg", map[string]string{"Emit = FALSE": "Emit = TRUE"})
+	r := c.TLC(core.TLCOpts{Module: "FileDownload", Cfg: gcfg, Workers: 1, Coverage: true, Timeout: 5 * time.Minute})
+	c.MustPass(r, "FileDownload")
+	c.CheckCoverage(r, "Download")
+	if rm := c.TLC(core.TLCOpts{Module: "FileDownload", Cfg: "FileDownload_noverify.cfg", Workers: 1, Timeout: 5 * time.Minute}); rm.Violated != "FailLeavesNoFinal" {
+		c.Infra("non-vacuity: the file-agent variant without the check before the move violates %q, expected FailLeavesNoFinal", rm.Violated)
+	}
+	var cases []*fileCase
+	seen := map[string]bool{}
+	if _, err := core.ReadBehaviours(r.OutFile, func(raw []byte) error {
+		if seen[string(raw)] {
+			return nil
+		}
+		seen[string(raw)] = true
+		var fc fileCase
+		if err := json.Unmarshal(raw, &fc); err != nil {
+			return err
+		}
+		cases = append(cases, &fc)
+		return nil
+	}); err != nil {
+		c.Infra("read file-agent cases: %v", err)
+	}
+	if len(cases) != 10 {
+		c.Infra("%d file-agent cases, expected 10", len(cases))
+	}
+	var mu sync.Mutex
+	var infra error
+	okSeen, failSeen := 0, 0
+	core.Parallel(len(cases), 10, func(i int) {
+		fc := cases[i]
+		res, final, why, err := runFileCase(c, lfs, fc, i)
+		mu.Lock()
+		defer mu.Unlock()
+		if err != nil {
+			if infra == nil {
+				infra = err
+			}
+			return
+		}
+		mk := func(assertion, w string) {
+			c.Report(core.Violation{Assertion: assertion, Fields: map[string]string{"adapter": "standalone-file", "remote": fc.Remote, "final0": fc.Final0},
+				Detail: map[string]interface{}{"why": w, "case": fc, "observed_result": res, "observed_final": final, "output": why}})
+		}
+		switch {
+		case res == "ok" && final != "valid":
+			mk("success-means-hash-valid-object", "fetch reported success but the file at the object's place is "+final)
+		case res == "fail" && fc.Final0 == "stale" && final == "stale":
+		case res == "fail" && final != "absent":
+			mk("failure-leaves-no-final-file", "fetch reported failure but a "+final+" file sits at the object's final place")
+		case final == "corrupt":
+			mk("final-file-hashes-to-its-name", "a file whose bytes do not hash to the oid was put into local storage")
+		case res != fc.Result:
+			c.AddInt("file_agent_drift_differs_from_implementation_model", 1)
+		}
+		if res == "ok" {
+			okSeen++
+		} else {
+			failSeen++
+		}
+	})
+	if infra != nil {
+		c.Infra("file-agent case: %v", infra)
+	}
+	if okSeen == 0 || failSeen == 0 {
+		c.Infra("file-agent phase is vacuous: %d successes, %d failures", okSeen, failSeen)
+	}
+	c.Set("file_agent_cases", len(cases))
+	c.AddInt("evaluations", int64(len(cases)))
+	c.AddInt("distinct_nontrivial", int64(len(cases)))
+	c.AddInt("traces_validated_against_impl", int64(len(cases)))
+	c.Set("file_agent_rule", "cases = every state of spec/FileDownload.tla: the remote repository's copy of the object {exact, same size with a flipped bit, prefix, longer, missing} x the final place beforehand {empty, same size with other bytes (fetch --refetch)}; each run with the real git lfs fetch against a file:// remote")
+}
+
+// runFileCase: clone with one committed LFS object pushed to a file:// remote; the remote's copy is then
+// put into the case's class, the local copy removed (or made stale), and the object fetched again.
+func runFileCase(c *core.Ctx, lfsBin string, fc *fileCase, idx int) (result, final, output string, err error) {
+	root := filepath.Join(c.Work, fmt.Sprintf("fa%d", idx))
+	defer os.RemoveAll(root)
+	w, err := NewWorldOpts(root, filepath.Dir(lfsBin), c.Seed, WorldOpts{FileRemote: true})
+	if err != nil {
+		return "", "", "", err
+	}
+	defer w.Close()
+	if err := w.Commit("main", "p1", "o1", 0); err != nil {
+		return "", "", "", err
+	}
+	if r := w.Env.RunIn(w.Clone, nil, nil, 120*time.Second, "git", "push", "-q", "origin", "main"); !r.OK() {
+		return "", "", "", fmt.Errorf("push: %s", r.All())
+	}
+	content := w.Content("o1")
+	remoteObj := gitenv.LocalObjectPath(w.Remote, w.Hex("o1"))
+	if _, e := os.Stat(remoteObj); e != nil {
+		return "", "", "", fmt.Errorf("the push did not store the object in the remote: %v", e)
+	}
+	var rb []byte
+	switch fc.Remote {
+	case "exact":
+		rb = content
+	case "flip":
+		rb = append([]byte{}, content...)
+		rb[len(rb)/2] ^= 1
+	case "prefix":
+		rb = content[:len(content)/2]
+	case "extra":
+		rb = append(append([]byte{}, content...), []byte("tail")...)
+	}
+	os.Remove(remoteObj)
+	if fc.Remote != "missing" {
+		if e := os.WriteFile(remoteObj, rb, 0o444); e != nil {
+			return "", "", "", e
+		}
+	}
+	localObj := gitenv.LocalObjectPath(w.GitDir(), w.Hex("o1"))
+	os.Remove(localObj)
+	stale := bytes.Repeat([]byte{0x55}, len(content))
+	args := []string{"lfs", "fetch", "origin", "main"}
+	if fc.Final0 == "stale" {
+		if e := os.WriteFile(localObj, stale, 0o444); e != nil {
+			return "", "", "", e
+		}
+		args = []string{"lfs", "fetch", "--refetch", "origin", "main"}
+	}
+	r := w.Env.RunIn(w.Clone, nil, nil, 120*time.Second, "git", args...)
+	if r.Code == -2 {
+		return "", "", "", fmt.Errorf("fetch did not finish")
+	}
+	result = "ok"
+	if r.Code != 0 {
+		result = "fail"
+	}
+	final = "absent"
+	if b, e := os.ReadFile(localObj); e == nil {
+		switch {
+		case core.Sha(b) == w.Hex("o1"):
+			final = "valid"
+		case bytes.Equal(b, stale) && fc.Final0 == "stale":
+			final = "stale"
+		default:
+			final = "corrupt"
+		}
+	}
+	return result, final, core.Tail(r.All(), 600), nil
 }
